@@ -135,6 +135,11 @@ func (c *ShipConnection) ApprovePendingHandshake() {
 	c.stopHandshakeTimer()
 	c.setAndHandleState(model.SmeHelloStateReadyInit)
 
+	// sending the hello message may have failed and ended the handshake
+	if c.getState() != model.SmeHelloStateReadyListen {
+		return
+	}
+
 	// TODO: check if we need to do some validations before moving on to the next state
 	c.setAndHandleState(model.SmeHelloStateOk)
 }
